@@ -27,10 +27,10 @@ var goTypes = map[string]reflect.Type{
 	"uint32": reflect.TypeOf(uint32(0)), "uint64": reflect.TypeOf(uint64(0)),
 	"float32": reflect.TypeOf(float32(0)), "float64": reflect.TypeOf(float64(0)),
 	"bool": reflect.TypeOf(false), "string": reflect.TypeOf(""), "bytes": reflect.TypeOf([]byte(nil)),
-	"time": reflect.TypeOf(time.Time{}),
+	"time":   reflect.TypeOf(time.Time{}),
 	"*int64": reflect.TypeOf((*int64)(nil)), "*uint8": reflect.TypeOf((*uint8)(nil)), "*int16": reflect.TypeOf((*int16)(nil)),
 	"*string": reflect.TypeOf((*string)(nil)), "*bool": reflect.TypeOf((*bool)(nil)), "*float64": reflect.TypeOf((*float64)(nil)),
-	"*time": reflect.TypeOf((*time.Time)(nil)),
+	"*time":     reflect.TypeOf((*time.Time)(nil)),
 	"NullInt64": reflect.TypeOf(sql.NullInt64{}), "NullString": reflect.TypeOf(sql.NullString{}), "NullBool": reflect.TypeOf(sql.NullBool{}),
 	"NullTime": reflect.TypeOf(sql.NullTime{}), "NullFloat64": reflect.TypeOf(sql.NullFloat64{}), "NullInt32": reflect.TypeOf(sql.NullInt32{}),
 	"Level": reflect.TypeOf(Level(0)), "Tag": reflect.TypeOf(Tag{}), "Cents": reflect.TypeOf(Cents{}), "*Tag": reflect.TypeOf((*Tag)(nil)),
